@@ -172,7 +172,7 @@ impl Property for C08 {
                             let before = node.snapshot().await;
                             let seen: Vec<LamportClock> = before.get(&key).map(stamps_of).unwrap_or_default();
                             let r = node.exec(&c).await;
-                            let emitted: Vec<ReplicationDelta> = node.pump().iter().flat_map(|m| deltas_of(m)).collect();
+                            let emitted: Vec<ReplicationDelta> = node.pump().await.iter().flat_map(|m| deltas_of(m)).collect();
                             if trace { o.log.push(format!("node1: {} -> {}  emitted {}", show_cmd(&c), r.show(), emitted.iter().map(|d| format!("{}@{}", d.key, show(&d.value.timestamp))).collect::<Vec<_>>().join(","))); }
                             for d in &emitted {
                                 o.evals += 1;
